@@ -706,6 +706,14 @@ where
         unsafe { R::clear_components(&mut self.components, length, self.identifier.iter()) };
     }
 
+    /// Forget the rows stored in this archetype, without dropping the components within them.
+    ///
+    /// The allocations of the columns are kept. This is for leaving a consistent (empty) table
+    /// behind when user code panicked while the rows of a world were being replaced.
+    pub(crate) fn forget_rows(&mut self) {
+        self.length = 0;
+    }
+
     /// Decrease the allocated capacity for the component columns and entity identifier column.
     ///
     /// This may not decrease to the most optimal capacity, as it is dependent on the allocator.
